@@ -13,7 +13,12 @@ Inductive ahead_stop :=
 | AEnd          (* no further complete head in what the client has sent *)
 | ALast         (* the request just delivered ends the connection *)
 | ARefused      (* a head was refused (400 / 417 / non-ASCII): the connection ends *)
-| AHolds (r : breader) (st : stream).   (* the last delivered request holds the socket reader *)
+| AWaitsTurn    (* an HTTP/2.0 or 3.0 head follows unanswered requests: the connection thread writes the
+                   505 through that request's own writer, whose turn only comes when every earlier
+                   request has been answered (sequential.rs): nothing behind it is parsed until then *)
+| AHolds (r : breader) (st : stream) (last : bool).
+                (* the last delivered request holds the socket reader; last = it ends the connection
+                   (ClientConnection::next sets no_more_requests: nothing is parsed after it) *)
 
 (* requests obtainable from st without any action of the application, oldest first *)
 Fixpoint ahead_loop (c : cfg) (fuel : nat) (st : stream) (acc : list bytes) : list bytes * ahead_stop :=
@@ -26,16 +31,27 @@ Fixpoint ahead_loop (c : cfg) (fuel : nat) (st : stream) (acc : list bytes) : li
           | FrOk kind bl expects =>
               let st1 := mkS rest (seof st) in
               if ver_gt_11 ver then
-                (* refused with 505 by the connection thread itself, which drops the request *)
+                (* refused with 505 by the connection thread itself, which then drops the request; the
+                   505 needs the writer's turn: with unanswered requests before it the thread waits *)
                 if fix_d5 c then
                   match kind with
-                  | KEmpty => ahead_loop c f st1 acc
                   | KBuffered n =>
-                      if (n <=? len rest)%N then ahead_loop c f (mkS (skipn (N.to_nat n) rest) (seof st)) acc
-                      else (frev acc, AEnd)
-                  | KLimited n => ahead_loop c f (fst (body_drop c (BLimited n) st1 [])) acc
-                  | KChunked => ahead_loop c f (fst (body_drop c (BChunked None false) st1 [])) acc
-                  | KUpgrade => (frev acc, AEnd)
+                      if (n <=? len rest)%N then
+                        match acc with
+                        | [] => ahead_loop c f (mkS (skipn (N.to_nat n) rest) (seof st)) acc
+                        | _ => (frev acc, AWaitsTurn)
+                        end
+                      else (frev acc, AEnd)      (* new_request still waits for the small body *)
+                  | _ =>
+                      match acc with
+                      | [] =>
+                          match kind with
+                          | KLimited n => ahead_loop c f (fst (body_drop c (BLimited n) st1 [])) acc
+                          | KChunked => ahead_loop c f (fst (body_drop c (BChunked None false) st1 [])) acc
+                          | _ => ahead_loop c f st1 acc      (* KEmpty; KUpgrade: the raw reader is just dropped *)
+                          end
+                      | _ => (frev acc, AWaitsTurn)
+                      end
                   end
                 else (frev acc, AEnd)
               else
@@ -46,9 +62,9 @@ Fixpoint ahead_loop (c : cfg) (fuel : nat) (st : stream) (acc : list bytes) : li
                     if last_request ver hs then (frev (url :: acc), ALast)
                     else ahead_loop c f (mkS (skipn (N.to_nat n) rest) (seof st)) (url :: acc)
                   else (frev acc, AEnd)
-              | KLimited n => (frev (url :: acc), AHolds (BLimited n) st1)
-              | KChunked => (frev (url :: acc), AHolds (BChunked None false) st1)
-              | KUpgrade => (frev (url :: acc), AHolds BUpgrade st1)
+              | KLimited n => (frev (url :: acc), AHolds (BLimited n) st1 (last_request ver hs))
+              | KChunked => (frev (url :: acc), AHolds (BChunked None false) st1 (last_request ver hs))
+              | KUpgrade => (frev (url :: acc), AHolds BUpgrade st1 (last_request ver hs))
               end
           | _ => (frev acc, ARefused)
           end
@@ -67,11 +83,14 @@ Inductive release :=
 | RlGoesAway.        (* respond / drop / into_writer: the request and its reader are dropped *)
 
 (* two rounds: the requests obtainable at once, and those that become obtainable after the
-   application has acted on the request that holds the reader *)
+   application has acted on the request that holds the reader (going away = the request has been
+   answered or dropped AND its answer written, which needs every earlier request to be answered
+   first; reading needs nothing of the kind). Meaningful when the first round stops with AHolds. *)
 Definition ahead_two (c : cfg) (a : release) (st : stream) : list bytes * list bytes :=
   let '(got, stop) := ahead c st in
   match stop with
-  | AHolds r st1 =>
+  | AHolds r st1 true => (got, [])       (* the holder ends the connection: nothing is parsed after it *)
+  | AHolds r st1 false =>
       let fuel := S (List.length (sbytes st1)) in
       match a with
       | RlGoesAway => (got, fst (ahead c (fst (body_drop c r st1 []))))
